@@ -23,7 +23,11 @@ Inductive case :=
 (* a waiting reader with a filter at the end of its partitions: per partition the match flags of the records appended during
    the wait, in order; out: the selector's cached status of the last chunk was "nothing in the range" (RANGE ahead of the
    stored data); returned: the request returned a (matching) event *)
-| KFilt (out : bool) (srcs : list (list bool)) (returned : bool).   (* /repo's own journal iterator: a flush right before the last look of a read-to-end *)
+| KFilt (out : bool) (srcs : list (list bool)) (returned : bool)
+(* a request with WaitTimeout w at the end of a partition: did it start to wait (accepted), and was the event written then returned *)
+| KTimeout (w : Z) (accepted woken : bool)
+(* a waiting request cancelled while its waiters sleep: did it return; events delivered by the next request after a write *)
+| KCancel (returned : bool) (nev : nat).   (* /repo's own journal iterator: a flush right before the last look of a read-to-end *)
 
 Definition round_eqb (a b : list nat * nat) : bool := list_eqb Nat.eqb (fst a) (fst b) && Nat.eqb (snd a) (snd b).
 
@@ -59,6 +63,11 @@ Definition check (c : case) : bool :=
   | KFilt out srcs returned =>
       Bool.eqb (fst (frounds code_release_reaches code_status_refreshes 3
                        (map (fun r => {| fs_rest := r; fs_eof := true; fs_out := out |}) srcs))) returned
+  | KTimeout w accepted woken =>
+      if wait_timeout_ok w then (if (0 <? w)%Z then accepted && woken else true) else negb accepted && negb woken
+  | KCancel returned nev =>
+      let s := wrun (winit 1) [LStart 1; LWaiter; LWaiter; LCancel] in
+      returned && negb (reg s) && Nat.eqb (wcnt s) 0 && Nat.eqb nev (if scen_woken 1 WsBefore then 1 else 0)
   | KEmpty returned nev continues =>
       Bool.eqb (match empty_wait_loop code_empty_waits_for_ctx 1000 with Some _ => true | None => false end) returned &&
       Nat.eqb nev 0 &&
